@@ -24,7 +24,9 @@ pub fn run_one(recs: &[Rec], fastq: bool, wrap: usize, cut_line: usize, phys: &P
     let lay = Layout { fastq, wrap, crlf: phys.crlf, final_nl: phys.final_nl };
     let lines = lines_of_records(recs, &lay);
     let bytes = join_lines(&lines, &lay);
-    let path = format!("{}/rd_{}.{}{}", dir, tag, phys.ext, if phys.gz.is_some() { ".gz" } else { "" });
+    // file names as they occur in practice: inner dots before the suffix (GCF_000005845.2_ASM584v2_genomic.fna.gz)
+    let inner = if bytes.len() % 2 == 0 { ".2_ASM584v2" } else { "" };
+    let path = format!("{}/rd_{}{}.{}{}", dir, tag, inner, phys.ext, if phys.gz.is_some() { ".gz" } else { "" });
     let data = match &phys.gz {
         None => bytes.clone(),
         Some((cuts, stored)) => gzip_members(&split_at(&bytes, cuts), *stored),
@@ -156,6 +158,13 @@ pub fn free(seed: u64, runs: usize, dir: &str, maxlen: usize) {
             _ => {
                 let members = rng.range(2, 5) as usize;
                 let mut cuts: Vec<usize> = (1..members).map(|_| rng.below(total as u64 + 1) as usize).collect();
+                // empty members occur in practice (cat of bgzip files: every bgzip file ends with an empty block)
+                match i % 12 {
+                    2 => cuts.push(cuts[0]),          // an empty member in the middle
+                    6 => cuts.push(0),                // an empty first member
+                    10 => cuts.push(total),           // an empty last member
+                    _ => {}
+                }
                 cuts.sort();
                 Some((cuts, i % 8 < 4))
             }
